@@ -76,3 +76,19 @@ CLAIMS['C04']['text'] = ('Theorems on the generated model, Q8E0: fdp / fdp_one a
     'PARTIAL: Q16E1 history and to_posit on arbitrary states, and Q32E2 (fdp/fdp_one/to_posit are hand models pinned to the Rust source hash) are covered by the history correspondence against the exact-rational Spec fold '
     '(mixed signs, exact cancellations, terms living in one limb, NaR injection, permutations, all spellings).')
 CLAIMS['C04']['technique'] = 'Lean 4 symbolic factorisation + native_decide per-operand sweeps + induction over histories on generated model; history correspondence against exact rational fold'
+
+CLAIMS.update({
+ 'C15': C('PARTIAL by nature. Proved on the generated model (symbolic, every input of the class): ln/log2 return NaR for every d <= 0 (zero, negatives, NaR); atan2 and powf return NaR whenever either argument is NaR; '
+          'sin, cos, tan, exp, exp2 return NaR for NaR; closed evaluations for asin, acos, atan, sinh, cosh, cbrt, hypot at NaR. The whole sleef module (incl. Polynom instantiations, quire-fused stages, constants computed through the model of from_f64) '
+          'is in the regenerated model and tied by correspondence in both build profiles. NOT proved: the 1..5 ulp accuracy bound (a theorem would need a certified real-analysis error bound per function, and a 2^32 sweep with certified intervals is hours per function). '
+          'It is explored: every recorded implementation result is recomputed by an mpmath oracle (400 bits, ambiguity-guarded posit rounding) and the encoding distance compared with the crate\'s stated bound, on inputs concentrated at argument-reduction boundaries '
+          '(multiples of pi/2 within +-3 ulp up to 2.5e5, powers of two, domain ends), the crate\'s own test ranges, and structured/random patterns.',
+          'Lean 4 symbolic guard theorems on generated model + correspondence + mpmath-oracle search for ULP-bound violations (exploration for the numeric bound)',
+          note=TB + ' mpmath (python3-vt) as the oracle for the real-valued functions; domains as documented by the crate (|x| < 393216 for sin/cos/tan, |x| <= 104 for exp, [-150,128) for exp2, |x| <= 88 for sinh/cosh, [0.5, 6] for powf).'),
+ 'C16': C('Every exhaustive theorem of C01..C11, C17, C19 and the Q8E0 history theorem has the form "model returns .ok v": the generated model carries rustc\'s debug-profile overflow / shift / index / division checks and fuel-bounded loops, '
+          'so .ok v is simultaneously "no panic, no arithmetic or shift overflow, no out-of-bounds index, terminates" and (because a checked operation returns the wrapped value when it does not trap) "the optimised build returns the same bits". '
+          'These theorems are re-audited here as C16 obligations (all finite operand spaces: P8E0 unary/binary/ternary-fma, P16E1 unary, 8/16-bit integer sources, sampling, Q8E0 histories of any length). '
+          'PARTIAL: wider operand spaces, P32E2 elementary functions, polynomials, Q16E1/Q32E2 and the generic-width types are explored: every public operation is run in a dev (overflow-checked) and a release build on the structured streams of all properties; '
+          'any panic, timeout (watchdog) or bit difference between the two builds is a violation. Excluded by the property\'s own wording: clamp with min > max (asserted precondition), sin/cos/tan for |x| >= 393216 (explicit todo!()).',
+          'Lean 4 exhaustive .ok-theorems on checked-arithmetic model + two-profile differential run with panic/timeout detection'),
+})
